@@ -737,7 +737,7 @@ func init() {
 			}
 			return cs
 		},
-		Rule: "kinds: load (Secret/ConfigMap manifests with metadata/extra fields, text items incl. multi-line/unicode/numeric-looking/empty, binary items of 0-17 arbitrary bytes; 1/4 malformed: missing or non-string or unsupported kind, non-string or non-base64 binary value, section that is not a map: error or manifest, never a panic; plus a fixed corpus of 122 hostile manifests — every kind of non-string value in every section of both kinds, non-map sections, odd kinds — through ManifestFromBytes, Properties, YamlDoc and JsonDoc), save (load, with manifests of both kinds loaded and written in between, 0-6 Update/Remove on both facades, WriteTo, control decode + reload: item maps, non-data fields, section placement and base64), embedded-0/1/2 (YAML / JSON / properties document inside a ConfigMap on a temp file: 1-6 edits, Save, reopen, other items untouched), create (NewBuilder().Create of either kind with/without namespace, embedded properties edited, saved, reopened; kind/name/namespace in the written file), b64-enc / b64-dec (Go StdEncoding vs the Coq model on edge lengths and corrupted inputs). Non-trivial: manifest has both sections and extra fields / >= 2 edits. Distinct by Gallina term or (format,start,edits). Text items with CR LF line ends; empty top-level mappings/lists outside the data sections. A WriteTo into a failing writer before the real one; binary items of 4097/4098 bytes; one item name used on both data interfaces. Embedded properties with lists of groups below a group; every pair removed before a Save. Every 150th case: one configured builder opens two manifests, the first document is saved.",
+		Rule: "kinds: load (Secret/ConfigMap manifests with metadata/extra fields, text items incl. multi-line/unicode/numeric-looking/empty, binary items of 0-17 arbitrary bytes; 1/4 malformed: missing or non-string or unsupported kind, non-string or non-base64 binary value, section that is not a map: error or manifest, never a panic; plus a fixed corpus of 122 hostile manifests — every kind of non-string value in every section of both kinds, non-map sections, odd kinds — through ManifestFromBytes, Properties, YamlDoc and JsonDoc), save (load, with manifests of both kinds loaded and written in between, 0-6 Update/Remove on both facades, WriteTo, control decode + reload: item maps, non-data fields, section placement and base64), embedded-0/1/2 (YAML / JSON / properties document inside a ConfigMap on a temp file: 1-6 edits, Save, reopen, other items untouched), create (NewBuilder().Create of either kind with/without namespace, embedded properties edited, saved, reopened; kind/name/namespace in the written file), b64-enc / b64-dec (Go StdEncoding vs the Coq model on edge lengths and corrupted inputs). Non-trivial: manifest has both sections and extra fields / >= 2 edits. Distinct by Gallina term or (format,start,edits). Text items with CR LF line ends; empty top-level mappings/lists outside the data sections. A WriteTo into a failing writer before the real one; binary items of 4097/4098 bytes; one item name used on both data interfaces. Embedded properties with lists of groups below a group; every pair removed before a Save. Item names with an empty dotted component (a trailing or a doubled dot) keep their spelling through open/edit/Save. Every 150th case: one configured builder opens two manifests, the first document is saved.",
 		Gen: func(r *rand.Rand, tier string, idx int) Case {
 			if idx%150 == 11 {
 				return c17BuilderReuse(r, idx)
@@ -757,8 +757,79 @@ func init() {
 			case 6:
 				return c17Embedded(r, idx, 1)
 			default:
+				if r.Intn(4) == 0 {
+					return c17OddItemNames(r, idx)
+				}
 				return c17Embedded(r, idx, 2)
 			}
 		},
 	})
+}
+
+// text items whose names have an empty dotted component that is not the first one (legal Kubernetes data keys): opened as an
+// embedded properties document, edited elsewhere, saved — every item is still there under its own name (Go side only)
+func c17OddItemNames(r *rand.Rand, idx int) Case {
+	dir := procTmp("c17")
+	_ = os.MkdirAll(dir, 0o755)
+	file := filepath.Join(dir, fmt.Sprintf("odd%d.yaml", idx))
+	defer os.Remove(file)
+	pool := []string{"logging.level.", "routes..default", "a.b..c.", "plain.key", "x", "srv.port", "tail.."}
+	items := map[string]any{}
+	for i, n := 0, 2+r.Intn(4); i < n; i++ {
+		items[pool[r.Intn(len(pool))]] = c16Vals[r.Intn(len(c16Vals))]
+	}
+	var ib bytes.Buffer
+	_ = utils.NewYamlEncoder(&ib).Encode(map[string]any{"apiVersion": "v1", "kind": "ConfigMap", "metadata": map[string]any{"name": "odd"}, "data": items})
+	if err := os.WriteFile(file, ib.Bytes(), 0o644); err != nil {
+		return Case{Kind: "embedded-odd-names", Desc: "cannot write temp file", Fail: []string{err.Error()}}
+	}
+	var fail []string
+	edit := r.Intn(3)
+	want := map[string]any{}
+	for k, v := range items {
+		want[k] = v
+	}
+	pn := guard(func() {
+		doc, err := k8s.Properties(file)
+		if err != nil {
+			fail = append(fail, "open failed: "+err.Error())
+			return
+		}
+		switch edit {
+		case 1:
+			doc.Document().AddValueAt("added.key", dom.LeafNode("new"))
+			want["added.key"] = "new"
+		case 2:
+			doc.Document().AddValue("top", dom.LeafNode("t"))
+			want["top"] = "t"
+		}
+		if err := doc.Save(); err != nil {
+			fail = append(fail, "Save failed: "+err.Error())
+			return
+		}
+		m, err := k8s.ManifestFromFile(file)
+		if err != nil {
+			fail = append(fail, "manifest does not reload: "+err.Error())
+			return
+		}
+		got := map[string]any{}
+		for _, k := range m.StringData().List() {
+			if v := m.StringData().Get(k); v != nil {
+				got[k] = *v
+			}
+		}
+		if !reflect.DeepEqual(got, want) {
+			fail = append(fail, fmt.Sprintf("after open, edit %d and Save the manifest's items are %v, expected %v", edit, got, want))
+		}
+		re, err := k8s.Properties(file)
+		if err != nil {
+			fail = append(fail, "reopen failed: "+err.Error())
+		} else if fp, _ := flatPlain(re.Document()); !reflect.DeepEqual(fp, want) {
+			fail = append(fail, fmt.Sprintf("the reopened properties document has leaves %v, expected %v", fp, want))
+		}
+	})
+	if pn != "" {
+		fail = append(fail, "panic: "+pn)
+	}
+	return Case{Kind: "embedded-odd-names", Desc: map[string]any{"items": items, "edit": edit}, Fail: fail, Nontrivial: len(items) >= 2, Key: fmt.Sprint("odd", items, edit)}
 }
